@@ -15,6 +15,7 @@ CONSTANTS
   ArmorHdrs = {}
   SigBools = {TRUE, FALSE}
   BigSel = {}
+  ArmorMaxFields = 3
   Emit = TRUE
   MaxObjs = 3
   MaxIters = 2
